@@ -31,7 +31,7 @@ def run(ck):
             wf["illformed"] += 1
             ck.violation("%s|ill-scoped|%s" % (op, site), dict(replay, result=str(q)),
                          "%s produced a procedure with a use outside the scope of its declaration" % op)
-        if wf["compiled"] + wf["backend_rejected"] < ck.n(40, 1500) and (not s.deadline or time.time() < s.deadline):
+        if wf["compiled"] + wf["backend_rejected"] < ck.n(200, 1500) and (not s.deadline or time.time() < s.deadline):
             try:
                 q.c_code_str()
                 wf["compiled"] += 1
